@@ -265,3 +265,113 @@ Check standard_output_nul_free_reader :
     render_ok render b -> texts_free cfg b ->
     hides lcfg b -> (forall c buf, fst (c_roll c buf) <= length buf) ->
     ~ In b (ss_out (fst (fst (rbl_run (std_step cfg render) mode c_roll c_plan lcfg fuel lb0 rd core0 (st0, []))))).
+
+(* ---- 18. the concrete plan is the Core of C02/C03 ----
+   `lite_plan` (the plan the C14 model is run with) is exactly the sequence of sink calls that the Core model
+   (Model/SearcherCore.v + Model/Glue.v: SliceByLine::run over match_by_line, fast or slow line path, inverted
+   or not, passthru or not, any line terminator incl. CRLF, line numbers on or off) makes on the slice, when
+   no context lines are requested and the sink always continues: same calls, same order, same kind
+   (matched / other-context), same absolute offsets, same line bytes, same byte count at finish.
+   `ev14` (Model/LitePlanCore.v) translates the Core model's events into this model's events by dropping the
+   line number, which this model does not carry (`ev14_forgets_line_number_only`).
+   Hypotheses: detection off in the Core model (this model owns detection), `find_spec` = the contract of
+   find_by_line_fast of Props/C03 (`slice_eq_ref`; established from the candidate contract by
+   C03 `slice_eq_ref_from_candidate_contract`), and — for `lite_plan`, whose matcher is "a needle occurs in
+   the line" — that the matcher says just that on the lines of the slice (`needle_matcher`).
+   `core_plan_eq_core` is the same for every matcher (`core_plan`: lite_calls with the verdict abstracted). *)
+From RG Require Model.Lines Model.SearcherCore Model.Glue Model.LitePlanCore Proofs.FastPathProofs
+  Proofs.FindSpecProofs Proofs.LitePlanProofs Model.ScriptedMatcher Spec.GrepSpec.
+
+Theorem core_plan_eq_core :
+  forall (cfg : SearcherCore.config) (M : SearcherCore.matcher),
+    SearcherCore.c_binary cfg = SearcherCore.BNone -> SearcherCore.c_before cfg = 0 ->
+    SearcherCore.c_after cfg = 0 -> SearcherCore.c_stop_on_nonmatch cfg = false ->
+    forall s : bytes, FastPathProofs.find_spec cfg M s ->
+    LitePlanCore.result14 (Glue.slice_by_line_run cfg M (fun _ => SearcherCore.Continue) s) =
+    Some (EBegin :: map (call_event 0 s) (LitePlanCore.core_plan cfg (SearcherCore.m_is_match M) s)
+          ++ [EFinish (length s) None]).
+Proof. exact LitePlanProofs.core_plan_eq_core_proof. Qed.
+Print Assumptions core_plan_eq_core.
+
+Theorem lite_plan_eq_core :
+  forall (cfg : SearcherCore.config) (M : SearcherCore.matcher) (needles : list bytes),
+    SearcherCore.c_binary cfg = SearcherCore.BNone -> SearcherCore.c_before cfg = 0 ->
+    SearcherCore.c_after cfg = 0 -> SearcherCore.c_stop_on_nonmatch cfg = false ->
+    forall s : bytes, FastPathProofs.find_spec cfg M s -> LitePlanProofs.needle_matcher cfg M needles s ->
+    LitePlanCore.result14 (Glue.slice_by_line_run cfg M (fun _ => SearcherCore.Continue) s) =
+    Some (EBegin
+          :: map (call_event 0 s)
+                 (lite_plan needles (SearcherCore.c_invert cfg) (SearcherCore.c_passthru cfg)
+                            (LineTerm.lt_byte (SearcherCore.c_lt cfg)) s)
+          ++ [EFinish (length s) None]).
+Proof. exact LitePlanProofs.lite_plan_eq_core_proof. Qed.
+Print Assumptions lite_plan_eq_core.
+
+(* run against run: this model's SliceByLine::run over lite_plan (detection off, a sink that always continues)
+   delivers the events of the Core model's SliceByLine::run *)
+Theorem slice_run_lite_eq_core :
+  forall (cfg : SearcherCore.config) (M : SearcherCore.matcher) (needles : list bytes) (sniff : nat),
+    SearcherCore.c_binary cfg = SearcherCore.BNone -> SearcherCore.c_before cfg = 0 ->
+    SearcherCore.c_after cfg = 0 -> SearcherCore.c_stop_on_nonmatch cfg = false ->
+    forall s : bytes, FastPathProofs.find_spec cfg M s -> LitePlanProofs.needle_matcher cfg M needles s ->
+    LitePlanCore.result14 (Glue.slice_by_line_run cfg M (fun _ => SearcherCore.Continue) s) =
+    Some (rev (snd (slice_run LitePlanCore.sink_K BNone sniff s
+                      (lite_plan needles (SearcherCore.c_invert cfg) (SearcherCore.c_passthru cfg)
+                                 (LineTerm.lt_byte (SearcherCore.c_lt cfg)) s) (length s) (tt, [])))).
+Proof. exact LitePlanProofs.slice_run_lite_eq_core_proof. Qed.
+Print Assumptions slice_run_lite_eq_core.
+
+Theorem ev14_forgets_line_number_only :
+  forall e1 e2 : SearcherCore.event,
+    LitePlanCore.ev14 e1 = LitePlanCore.ev14 e2 -> LitePlanCore.strip_lnum e1 = LitePlanCore.strip_lnum e2.
+Proof. exact LitePlanProofs.ev14_inj. Qed.
+Print Assumptions ev14_forgets_line_number_only.
+
+(* 6./9. instantiated with the plan of the Core model (any matcher, inverted or not, passthru or not): *)
+Theorem slice_quit_no_nul_in_events_core :
+  forall (St : Type) (sink : St -> event -> St * bool) (b : byte) (sniff : nat)
+         (cfg : SearcherCore.config) (M : SearcherCore.matcher) (slice : bytes) (s0 : St),
+    Forall (ev_free b)
+           (snd (slice_run sink (BQuit b) sniff slice
+                           (LitePlanCore.core_plan cfg (SearcherCore.m_is_match M) slice) (length slice) (s0, []))).
+Proof. intros. apply slice_quit_no_nul_in_events. Qed.
+Print Assumptions slice_quit_no_nul_in_events_core.
+
+Theorem standard_output_nul_free_slice_core :
+  forall (pcfg : std_cfg) (render : event -> bytes) (b : byte) (sniff : nat)
+         (cfg : SearcherCore.config) (M : SearcherCore.matcher) (slice : bytes),
+    render_ok render b -> texts_free pcfg b ->
+    sc_mode pcfg = BQuit b \/ sc_mode pcfg = BConvert b ->
+    ~ In b (ss_out (fst (slice_run (std_step pcfg render) (sc_mode pcfg) sniff slice
+                                   (LitePlanCore.core_plan cfg (SearcherCore.m_is_match M) slice)
+                                   (length slice) (st0, [])))).
+Proof. intros. apply standard_output_nul_free_slice; assumption. Qed.
+Print Assumptions standard_output_nul_free_slice_core.
+
+(* non-vacuity: the hypotheses of 18 are satisfiable for every configuration and slice (a matcher that never
+   matches, no needles), and a concrete fast-path run (inverted, needle "b") through both models *)
+Example lite_plan_hyps_satisfiable : forall (cfg : SearcherCore.config) (s : bytes),
+  let M := {| SearcherCore.m_is_match := fun _ => false; SearcherCore.m_find_candidate := fun _ => None;
+              SearcherCore.m_line_term := Some (SearcherCore.c_lt cfg);
+              SearcherCore.m_nonmatching := fun _ => false; SearcherCore.m_find_at := fun _ _ => None |} in
+  FastPathProofs.find_spec cfg M s /\ LitePlanProofs.needle_matcher cfg M [] s.
+Proof.
+  intros cfg s M. split.
+  - apply FindSpecProofs.find_spec_of_cand_proof. intros p ls Hat Hne. cbn. clear. induction ls; constructor; auto.
+  - unfold LitePlanProofs.needle_matcher. clear. induction (GrepSpec.split_lines _ s); constructor; auto.
+Qed.
+
+Example lite_plan_core_example :
+  let cfg := {| SearcherCore.c_lt := LineTerm.LTByte 10; SearcherCore.c_invert := true; SearcherCore.c_after := 0;
+                SearcherCore.c_before := 0; SearcherCore.c_passthru := false; SearcherCore.c_line_number := true;
+                SearcherCore.c_stop_on_nonmatch := false; SearcherCore.c_binary := SearcherCore.BNone;
+                SearcherCore.c_multi_line := false |} in
+  let M := ScriptedMatcher.scripted cfg
+             [ {| ScriptedMatcher.n_anch := false; ScriptedMatcher.n_bytes := [98]%N; ScriptedMatcher.n_real := true |} ]
+             true 1%N in
+  let s := [97; 10; 120; 10; 98; 10; 121; 10; 122]%N in
+  LitePlanCore.result14 (Glue.slice_by_line_run cfg M (fun _ => SearcherCore.Continue) s) =
+    Some (rev (snd (slice_run LitePlanCore.sink_K BNone 4 s (lite_plan [[98%N]] true false 10 s) (length s) (tt, []))))
+  /\ map (fun c => (c_start c, c_end c, c_pos c)) (lite_plan [[98%N]] true false 10 s)
+     = [(0, 2, 6); (2, 4, 6); (6, 8, 9); (8, 9, 9)].
+Proof. vm_compute. split; reflexivity. Qed.
